@@ -10,6 +10,10 @@ _CONCRETE_BUILTINS = {"float": "float64 only (float32 / float16 arrays are not m
                       "complex": "complex128 only"}
 
 
+_ABSTRACT_NP_TYPES = {"floating", "integer", "signedinteger", "unsignedinteger", "number", "inexact", "complexfloating", "character", "flexible",
+                      "generic", "str_", "bytes_", "bool_", "object_", "datetime64", "timedelta64", "void"}
+
+
 def dtype_family_tests(ctx, rel, rule, min_sites=1):
     """`np.issubdtype(dtype, T)` decides which branch an array of a whole dtype FAMILY takes (all floats are compared NaN-tolerantly,
     all integers are packed, ...).  T must be the abstract numpy type (np.floating, np.integer, np.str_ ...): the Python builtins
@@ -24,9 +28,11 @@ def dtype_family_tests(ctx, rel, rule, min_sites=1):
                 if any(c in ast.walk(g) for q2, g in s.funcs.items() if q2 != qual and q2.startswith(qual + ".")):
                     continue
                 n += 1
-                bad = isinstance(t, ast.Name) and t.id in _CONCRETE_BUILTINS
-                ctx.ob(rule, rel, qual, ast.unparse(c)[:80], not bad,
-                       f"the test matches {_CONCRETE_BUILTINS.get(getattr(t, 'id', ''), '')}: arrays of the other widths of the family take the wrong branch",
+                # an allow-list: the abstract scalar types of numpy (written as np.<name>); a concrete width (np.float64, np.double,
+                # "float64", np.dtype(float)), a builtin or a computed type names one dtype of the family
+                ok_t = isinstance(t, ast.Attribute) and isinstance(t.value, ast.Name) and t.value.id in ("np", "numpy") and t.attr in _ABSTRACT_NP_TYPES
+                ctx.ob(rule, rel, qual, ast.unparse(c)[:80], ok_t,
+                       f"the test names {ast.unparse(t)[:40]}, not an abstract numpy type: arrays of the other widths of the family take the wrong branch",
                        c.lineno)
     ctx.floor(f"{rule}:{rel}", n, min_sites)
     return n
@@ -404,50 +410,96 @@ def lost_loop_updates(func):
     """stores that every iteration of a `for` loop makes into the SAME location without reading what the previous iteration
     put there and without using it inside the iteration: only the last iteration has an effect.
     Returns [(loop, assign)]"""
+    from .exprnorm import _dead_ids
     out = []
+    dead = _dead_ids(func)
+
+    def own_statements(lp):
+        """(statement, unconditional) for the statements of one iteration: the body and what is nested in if / try / with (not the
+        bodies of inner loops - they have iterations of their own), dead code left out"""
+        todo = [(b, True) for b in lp.body]
+        while todo:
+            st, unc = todo.pop(0)
+            if id(st) in dead:
+                continue
+            yield st, unc
+            if isinstance(st, (ast.For, ast.AsyncFor, ast.While, ast.FunctionDef, ast.AsyncFunctionDef, ast.ClassDef)):
+                continue
+            for fld in ("body", "orelse", "finalbody"):
+                keep = unc and isinstance(st, (ast.With, ast.AsyncWith, ast.Try)) and fld in ("body", "finalbody")
+                todo.extend((b, keep) for b in getattr(st, fld, None) or [])
+            for h in getattr(st, "handlers", None) or []:
+                todo.extend((b, False) for b in h.body)
+
+    def stores_of(st):
+        """[(target, value)] of a statement that binds by assignment (plain, chained, annotated, element-wise tuple)"""
+        pairs = []
+        if isinstance(st, ast.Assign):
+            for t in st.targets:
+                if isinstance(t, (ast.Tuple, ast.List)) and isinstance(st.value, (ast.Tuple, ast.List)) and len(t.elts) == len(st.value.elts):
+                    pairs.extend(zip(t.elts, st.value.elts))
+                else:
+                    pairs.append((t, st.value))
+        elif isinstance(st, ast.AnnAssign) and st.value is not None:
+            pairs.append((st.target, st.value))
+        return pairs
+
+    def consuming_reads(lp, load, skip):
+        """reads of the location inside the iteration that use its value (an assert only looks at it)"""
+        asserts = {id(x) for b in ast.walk(lp) if isinstance(b, ast.Assert) for x in ast.walk(b)}
+        return [x for b in lp.body for x in ast.walk(b) if isinstance(x, (ast.Subscript, ast.Attribute, ast.Name)) and isinstance(x.ctx, ast.Load)
+                and ast.dump(x) == load and id(x) not in asserts and id(x) not in skip]
+
     for lp in ast.walk(func):
-        if not isinstance(lp, ast.For) or lp.orelse:
+        if not isinstance(lp, ast.For) or id(lp) in dead:
             continue
-        if any(isinstance(x, ast.Break) for x in ast.walk(lp)):
+        # a loop that may be left early by ITS OWN break keeps the first hit, not the last (breaks of inner loops are theirs)
+        inner_loops = [x for b in lp.body for x in ast.walk(b) if isinstance(x, (ast.For, ast.AsyncFor, ast.While))]
+        own_breaks = [x for b in lp.body for x in ast.walk(b) if isinstance(x, ast.Break) and not any(any(y is x for y in ast.walk(il)) for il in inner_loops)]
+        if own_breaks:
             continue
         tvars = _names(lp.target)
         assigned = set(tvars)
         for x in ast.walk(lp):
             if isinstance(x, ast.Name) and isinstance(x.ctx, ast.Store):
                 assigned.add(x.id)
-        for st in lp.body:
-            # a truth-valued flag that every iteration overwrites (`found = x.y is not None` instead of `if ..: found = True`):
-            # initialised with a bool before the loop, assigned a test of the loop variable, not read inside the iteration
-            if isinstance(st, ast.Assign) and len(st.targets) == 1 and isinstance(st.targets[0], ast.Name) \
-                    and isinstance(st.value, (ast.Compare, ast.BoolOp)) and (_names(st.value) & tvars) and st.targets[0].id not in _names(st.value):
-                flag = st.targets[0].id
-                init = [x for x in ast.walk(func) if isinstance(x, ast.Assign) and any(isinstance(t, ast.Name) and t.id == flag for t in x.targets)
-                        and isinstance(x.value, ast.Constant) and isinstance(x.value.value, bool) and not any(x is y for y in ast.walk(lp))]
-                read_inside = any(isinstance(x, ast.Name) and x.id == flag and isinstance(x.ctx, ast.Load) for b in lp.body for x in ast.walk(b))
-                stores_inside = [x for x in ast.walk(lp) if isinstance(x, ast.Name) and x.id == flag and isinstance(x.ctx, ast.Store)]
-                if init and not read_inside and len(stores_inside) == 1:
-                    out.append((lp, st))
-                continue
-            if not (isinstance(st, ast.Assign) and len(st.targets) == 1 and isinstance(st.targets[0], (ast.Subscript, ast.Attribute))):
-                continue
-            tgt = st.targets[0]
-            if _names(tgt) & assigned:
-                continue                       # another location in every iteration
-            if not (_names(st.value) & tvars):
-                continue                       # loop-invariant value
-            load = ast.dump(ast.parse(ast.unparse(tgt), mode="eval").body)
-            reads = [x for b in lp.body for x in ast.walk(b) if isinstance(x, (ast.Subscript, ast.Attribute)) and isinstance(x.ctx, ast.Load)
-                     and ast.dump(x) == load]
-            if reads:
-                continue                       # accumulates, or is consumed inside the iteration
-            # an object that the iteration goes on to fill (x.attr = ..; x.other = ..) is not an overwritten result
-            base = tgt
-            while isinstance(base, (ast.Subscript, ast.Attribute)):
-                base = base.value
-            if isinstance(base, ast.Name) and any(isinstance(x, ast.Name) and x.id == base.id and isinstance(x.ctx, ast.Load) and x is not base
-                                                  for b in lp.body for x in ast.walk(b) if b is not st):
-                continue
-            out.append((lp, st))
+        for st, unconditional in own_statements(lp):
+            for tgt, value in stores_of(st):
+                if isinstance(tgt, ast.Name):
+                    # a flag that every iteration overwrites (`found = x.y is not None` instead of `if ..: found = True`): initialised with a
+                    # bool before the loop, assigned - unconditionally, in whatever spelling - a value that depends on the loop variable
+                    # and not on the flag, and not used inside the iteration
+                    flag = tgt.id
+                    if not unconditional or not (_names(value) & tvars) or flag in _names(value) or flag in tvars:
+                        continue
+                    init = [x for x in ast.walk(func) if isinstance(x, ast.Assign) and any(isinstance(t, ast.Name) and t.id == flag for t in x.targets)
+                            and isinstance(x.value, ast.Constant) and isinstance(x.value.value, bool) and not any(x is y for y in ast.walk(lp))]
+                    if not init:
+                        continue
+                    if consuming_reads(lp, ast.dump(ast.Name(id=flag, ctx=ast.Load())), set()):
+                        continue
+                    live_stores = [x for x in ast.walk(lp) if isinstance(x, ast.Name) and x.id == flag and isinstance(x.ctx, ast.Store) and id(x) not in dead]
+                    if len(live_stores) == 1:
+                        out.append((lp, st))
+                    continue
+                if not isinstance(tgt, (ast.Subscript, ast.Attribute)):
+                    continue
+                if _names(tgt) & assigned:
+                    continue                       # another location in every iteration
+                if not (_names(value) & tvars):
+                    continue                       # loop-invariant value
+                load = ast.dump(ast.parse(ast.unparse(tgt), mode="eval").body)
+                if consuming_reads(lp, load, set()):
+                    continue                       # accumulates, or is consumed inside the iteration
+                # an object that the iteration goes on to fill (x.attr = ..; x.other = ..) is not an overwritten result
+                base = tgt
+                while isinstance(base, (ast.Subscript, ast.Attribute)):
+                    base = base.value
+                if isinstance(base, ast.Name):
+                    own = {id(x) for x in ast.walk(st)}
+                    if consuming_reads(lp, ast.dump(ast.Name(id=base.id, ctx=ast.Load())), own):
+                        continue
+                out.append((lp, st))
     return out
 
 
@@ -762,20 +814,34 @@ def alphabets_compared_by_value(ctx, rel, rule, min_sites=0):
     only acceptable against `self` (the shortcut in front of the value comparison)"""
     s = ctx.src(rel)
     n = 0
+
+    def alph(e):
+        return "alph" in ast.unparse(e).lower()
     for qual, f in s.funcs.items():
         for c in ast.walk(f):
-            if not (isinstance(c, ast.Compare) and len(c.ops) == 1 and isinstance(c.ops[0], (ast.Is, ast.IsNot, ast.Eq, ast.NotEq))):
-                continue
-            l, r = c.left, c.comparators[0]
-            txt = ast.unparse(l) + " " + ast.unparse(r)
-            if "alph" not in txt.lower():
-                continue
-            if any(isinstance(x, ast.Constant) for x in (l, r)) or any(isinstance(x, ast.Name) and x.id == "self" for x in (l, r)):
-                continue
             if any(c in ast.walk(g) for q2, g in s.funcs.items() if q2 != qual and q2.startswith(qual + ".")):
                 continue
+            if isinstance(c, ast.Call) and alph(c):
+                # identity taken through a call: id(a) .. id(b), operator.is_(a, b), (lambda a, b: a is b)(x, y)
+                fnm = call_name(c) or ""
+                by_call = fnm == "id" or fnm.split(".")[-1] in ("is_", "is_not") or \
+                    isinstance(c.func, ast.Lambda) and any(isinstance(o, (ast.Is, ast.IsNot)) for x in ast.walk(c.func) if isinstance(x, ast.Compare) for o in x.ops)
+                if by_call and any(alph(a) for a in c.args):
+                    n += 1
+                    ctx.ob(rule, rel, qual, ast.unparse(c)[:80], False,
+                           "the identity of an alphabet object decides: an equal alphabet that is another object (after pickling / deepcopy) takes "
+                           "the other branch", c.lineno)
+                continue
+            if not (isinstance(c, ast.Compare) and any(isinstance(o, (ast.Is, ast.IsNot, ast.Eq, ast.NotEq)) for o in c.ops)):
+                continue
+            sides = [c.left] + list(c.comparators)
+            pairs = [(sides[k], sides[k + 1], o) for k, o in enumerate(c.ops) if isinstance(o, (ast.Is, ast.IsNot, ast.Eq, ast.NotEq))]
+            pairs = [(l, r, o) for l, r, o in pairs if (alph(l) or alph(r)) and not any(isinstance(x, ast.Constant) for x in (l, r))
+                     and not any(isinstance(x, ast.Name) and x.id == "self" for x in (l, r))]
+            if not pairs:
+                continue
             n += 1
-            ctx.ob(rule, rel, qual, ast.unparse(c)[:80], not isinstance(c.ops[0], (ast.Is, ast.IsNot)),
+            ctx.ob(rule, rel, qual, ast.unparse(c)[:80], not any(isinstance(o, (ast.Is, ast.IsNot)) for _, _, o in pairs),
                    "two alphabets are compared by identity: an equal alphabet that is another object (after pickling / deepcopy) takes the other branch",
                    c.lineno)
     ctx.floor(f"{rule}:{rel}", n, min_sites)
@@ -795,6 +861,45 @@ def _one_shot(e):
     return False
 
 
+_MATERIALISING = {"list", "tuple", "set", "frozenset", "dict", "sorted", "str", "bytes", "bytearray", "sum", "any", "all", "max", "min", "len",
+                  "np.array", "np.asarray", "np.fromiter", "np.concatenate", "np.stack", "numpy.array", "numpy.asarray", "Counter", "collections.Counter",
+                  "collections.deque", "deque", "OrderedDict", "collections.OrderedDict"}
+
+
+def _one_shot_inside(e, generator_functions=(), module_aliases=None):
+    """does the value of `e` contain a one-shot iterator that nothing materialises: a generator expression, a lazy builtin (map, zip,
+    filter, iter, reversed, enumerate), an itertools object (under any name the module imports it by), `x.__iter__()`, the call
+    of a function that contains `yield` - anywhere in the expression (`[gen][0]`, `gen or None`, `next(iter([gen]))`,
+    `(lambda s: (..for..))(x)`), unless a call that reads it to the end (list, tuple, sorted, "".join, np.array ..) stands around it"""
+    module_aliases = module_aliases or {}
+
+    def lazy(x):
+        if isinstance(x, ast.GeneratorExp):
+            return True
+        if isinstance(x, ast.Call):
+            cn = call_name(x) or ""
+            head = cn.split(".")[0]
+            if cn in _ONE_SHOT_CALLS or cn in ("csv.reader",) or cn.startswith("itertools.") or module_aliases.get(head) == "itertools":
+                return True
+            if isinstance(x.func, ast.Attribute) and x.func.attr in ("__iter__", "__reversed__", "items", "keys", "values") and x.func.attr.startswith("__"):
+                return True
+            if isinstance(x.func, ast.Name) and x.func.id in generator_functions:
+                return True
+            if isinstance(x.func, ast.Name) and module_aliases.get(x.func.id, "").startswith("itertools."):
+                return True
+        return False
+
+    def walk(x, covered):
+        if lazy(x) and not covered:
+            return True
+        mat = isinstance(x, ast.Call) and ((call_name(x) or "") in _MATERIALISING or isinstance(x.func, ast.Attribute) and x.func.attr == "join")
+        for ch in ast.iter_child_nodes(x):
+            if walk(ch, covered or mat or isinstance(x, (ast.ListComp, ast.SetComp, ast.DictComp)) and ch in x.generators):
+                return True
+        return False
+    return walk(e, False)
+
+
 def _exclusive(fn, a, b):
     """do the nodes a and b sit in different arms of one if / else (so that at most one of them runs)"""
     for st in ast.walk(fn):
@@ -811,23 +916,47 @@ def _exclusive(fn, a, b):
     return False
 
 
-def iterator_locals_consumed_twice(fn):
+class _Bound:
+    def __init__(self, node, value):
+        self.node = node
+        self.value = value
+        self.lineno = getattr(node, "lineno", getattr(value, "lineno", 0))
+
+
+def iterator_locals_consumed_twice(fn, generator_functions=(), module_aliases=None):
     """[(name, binding, second use)] for locals bound to a one-shot iterator that may be read twice on one run: two reads that
     are not in different arms of an if, or a read inside a loop that the binding is outside of (`try: f(it) except: g(it)` -
     the handler finds the iterator exhausted)"""
     out = []
     binds = {}
+    # every construct that binds a name to (an item of) a value: plain, chained and annotated assignments, walrus, `for x in [value]`,
+    # `with manager(value) as x`
+    gen_funcs = {n.name for n in ast.walk(fn) if isinstance(n, (ast.FunctionDef, ast.AsyncFunctionDef)) and n is not fn
+                 and any(isinstance(y, (ast.Yield, ast.YieldFrom)) for y in ast.walk(n))} | set(generator_functions or ())
     for st in ast.walk(fn):
-        if isinstance(st, ast.Assign) and len(st.targets) == 1 and isinstance(st.targets[0], ast.Name):
-            binds.setdefault(st.targets[0].id, []).append(st)
-        elif isinstance(st, ast.Name) and isinstance(st.ctx, ast.Store):
-            binds.setdefault(st.id, [])
-    stores = {}
-    for x in ast.walk(fn):
-        if isinstance(x, ast.Name) and isinstance(x.ctx, (ast.Store, ast.Del)):
-            stores[x.id] = stores.get(x.id, 0) + 1
+        pairs = []
+        if isinstance(st, ast.Assign):
+            pairs = [(t, st.value) for t in st.targets]
+        elif isinstance(st, (ast.AnnAssign, ast.NamedExpr)) and st.value is not None:
+            pairs = [(st.target, st.value)]
+        elif isinstance(st, (ast.For, ast.AsyncFor, ast.comprehension)):
+            pairs = [(st.target, st.iter)]
+        elif isinstance(st, (ast.With, ast.AsyncWith)):
+            pairs = [(i.optional_vars, i.context_expr) for i in st.items if i.optional_vars is not None]
+        for t, v in pairs:
+            for x in ast.walk(t):
+                if isinstance(x, ast.Name) and isinstance(x.ctx, ast.Store):
+                    binds.setdefault(x.id, []).append(_Bound(st, v))
+    # a name bound to a name that is one-shot is one-shot (`upper = (..); sequence = upper`)
+    for _ in range(3):
+        for nm, bs in list(binds.items()):
+            for b in list(bs):
+                if isinstance(b.value, ast.Name) and b.value.id in binds and b.value.id != nm:
+                    for b2 in binds[b.value.id]:
+                        if _one_shot_inside(b2.value, gen_funcs, module_aliases) and not any(b3.value is b2.value for b3 in bs):
+                            bs.append(_Bound(b.node, b2.value))
     for nm, bs in binds.items():
-        shots = [b for b in bs if _one_shot(b.value)]
+        shots = [b for b in bs if _one_shot_inside(b.value, gen_funcs, module_aliases)]
         if not shots:
             continue
         uses = [x for x in ast.walk(fn) if isinstance(x, ast.Name) and x.id == nm and isinstance(x.ctx, ast.Load)]
@@ -841,7 +970,7 @@ def iterator_locals_consumed_twice(fn):
                 break
         if bad is None:
             for lp in ast.walk(fn):
-                if isinstance(lp, (ast.For, ast.While)) and not any(any(y is b for y in ast.walk(lp)) for b in shots):
+                if isinstance(lp, (ast.For, ast.While)) and not any(any(y is b.node for y in ast.walk(lp)) for b in shots):
                     inner = [u for u in uses if any(y is u for s_ in lp.body for y in ast.walk(s_))]
                     if inner:
                         bad = inner[0]
@@ -860,12 +989,22 @@ def iterators_consumed_once(ctx, rel, rule):
         raise AnalysisError(f"{rule}: the lint does not see its built-in example")
     s = ctx.src(rel)
     n = 0
+    # functions of the module that are generators, and the names under which the module imports itertools (and its functions)
+    mod_gens = {q.split(".")[-1] for q, g in s.funcs.items() if any(isinstance(y, (ast.Yield, ast.YieldFrom)) for y in ast.walk(g))}
+    mod_alias = {}
+    for st in ast.walk(s.tree):
+        if isinstance(st, ast.Import):
+            for al in st.names:
+                mod_alias[(al.asname or al.name).split(".")[0]] = al.name
+        elif isinstance(st, ast.ImportFrom) and st.module:
+            for al in st.names:
+                mod_alias[al.asname or al.name] = f"{st.module}.{al.name}"
     for q, f in s.funcs.items():
         if any(q != q2 and q.startswith(q2 + ".") for q2 in s.funcs):
             continue
-        hits = iterator_locals_consumed_twice(f)
+        hits = iterator_locals_consumed_twice(f, mod_gens, mod_alias)
         lazy = sorted({t.targets[0].id for t in ast.walk(f) if isinstance(t, ast.Assign) and len(t.targets) == 1 and isinstance(t.targets[0], ast.Name)
-                       and _one_shot(t.value)})
+                       and _one_shot_inside(t.value, mod_gens, mod_alias)} | {h[0] for h in hits})
         if not lazy and not hits:
             continue
         n += 1
